@@ -296,3 +296,63 @@ def walrus(src: str) -> str:
 
 
 GENERATED["gen:walrus-all"] = (walrus, "every `t = E` directly followed by an `if` that tests `t` first written as `if (t := E) ...`")
+
+
+def demorgan(src: str) -> str:
+    """`not (a and b)` -> `not a or not b`, `not (a or b)` -> `not a and not b`; and the other way for a BoolOp all of whose operands are
+    `not x`: `not a or not b` -> `not (a and b)`.  Applied to if / while / assert tests and boolean operands anywhere."""
+    tree = ast.parse(src)
+
+    class T(ast.NodeTransformer):
+        def visit_UnaryOp(self, node):
+            self.generic_visit(node)
+            if isinstance(node.op, ast.Not) and isinstance(node.operand, ast.BoolOp):
+                inner = node.operand
+                op = ast.Or() if isinstance(inner.op, ast.And) else ast.And()
+                return ast.copy_location(ast.BoolOp(op=op, values=[v.operand if isinstance(v, ast.UnaryOp) and isinstance(v.op, ast.Not) else ast.UnaryOp(op=ast.Not(), operand=v) for v in inner.values]), node)
+            return node
+
+        def visit_BoolOp(self, node):
+            self.generic_visit(node)
+            if len(node.values) >= 2 and all(isinstance(v, ast.UnaryOp) and isinstance(v.op, ast.Not) and not isinstance(v.operand, ast.BoolOp) for v in node.values):
+                op = ast.Or() if isinstance(node.op, ast.And) else ast.And()
+                return ast.copy_location(ast.UnaryOp(op=ast.Not(), operand=ast.BoolOp(op=op, values=[v.operand for v in node.values])), node)
+            return node
+    return ast.unparse(ast.fix_missing_locations(T().visit(tree))) + "\n"
+
+
+def chain_split(src: str) -> str:
+    """`a < b < c` -> `a < b and b < c` when the middle operands are side-effect free (evaluated twice otherwise)."""
+    tree = ast.parse(src)
+
+    class T(ast.NodeTransformer):
+        def visit_Compare(self, node):
+            self.generic_visit(node)
+            if len(node.ops) >= 2 and all(_pure(c) for c in node.comparators[:-1]):
+                parts = []
+                left = node.left
+                for op, right in zip(node.ops, node.comparators):
+                    parts.append(ast.Compare(left=left, ops=[op], comparators=[right]))
+                    left = right
+                return ast.copy_location(ast.BoolOp(op=ast.And(), values=parts), node)
+            return node
+    return ast.unparse(ast.fix_missing_locations(T().visit(tree))) + "\n"
+
+
+def loop_guard(src: str) -> str:
+    """A loop body that ends in an else-less `if c: <stmts>` -> `if not c: continue` followed by the statements (for / while / async for,
+    not inside a try/finally of the loop body level, which does not matter for `continue` in Python >= 3.8)."""
+    tree = ast.parse(src)
+    for lp in ast.walk(tree):
+        if isinstance(lp, (ast.For, ast.AsyncFor, ast.While)) and lp.body and isinstance(lp.body[-1], ast.If) and not lp.body[-1].orelse and len(lp.body) > 1:
+            last = lp.body[-1]
+            if any(isinstance(x, (ast.FunctionDef, ast.AsyncFunctionDef, ast.ClassDef)) for x in last.body):
+                continue
+            guard = ast.If(test=ast.UnaryOp(op=ast.Not(), operand=last.test), body=[ast.Continue()], orelse=[])
+            lp.body = lp.body[:-1] + [ast.copy_location(guard, last)] + last.body
+    return ast.unparse(ast.fix_missing_locations(tree)) + "\n"
+
+
+GENERATED["gen:demorgan-all"] = (demorgan, "every `not (a and b)` / `not (a or b)` distributed, every `not a or not b` / `not a and not b` factored")
+GENERATED["gen:chain-split-all"] = (chain_split, "every chained comparison with side-effect-free middle operands written as a conjunction")
+GENERATED["gen:loop-guard-all"] = (loop_guard, "every loop body ending in an else-less `if c: ...` rewritten with `if not c: continue`")
